@@ -155,7 +155,7 @@ func init() {
 		Rule:        "Exhaustive enumeration (choice explorer) of bad kind (13: channel, function, complex64/128, unsafe.Pointer, slices/maps/structs containing them, directly and nested) x position (15: top level, struct field, first/middle/last list element, map value, map key, one and two nesting levels, containers in containers, top-level containers) x surroundings (other field values, sibling elements and entries, <=k deviations), plus typed struct fields of the bad kinds. Each case is one real ToBytes call. Oracle: it returns, does not panic, and returns a non-nil error; if it returns nil the bytes are parsed by R1 and the discrepancy is recorded. Non-trivial: all cases (each contains an unrepresentable value); distinct by (kind, position, surroundings).",
 		Assumptions: []string{"nil channels/functions and uintptr are left out (writing null / a long for them is arguably right)", "unhashable bad values are not used as map keys"},
 		Units: func(tier string) []core.Unit {
-			bound := tierPick(tier, 1, 3)
+			bound := tierPick(tier, 2, 4)
 			var us []core.Unit
 			for pi := range badPositions {
 				pos := badPositions[pi]
